@@ -7,6 +7,7 @@ import (
 	"time"
 
 	"github.com/orda-io/orda/client/pkg/model"
+	"github.com/orda-io/orda/client/pkg/vhook"
 	"go.mongodb.org/mongo-driver/bson"
 	"go.mongodb.org/mongo-driver/bson/primitive"
 	"vh/bed"
@@ -20,7 +21,7 @@ func init() {
 		ID:      "C11",
 		Level:   "exploration",
 		Workers: 16,
-		Rule: "seeded push histories of 2-3 clients on each of the four types over the real service; the background snapshot update of a chosen push is held at one of its database commands (find -_-Snapshots, find -_-Operations, insert -_-Snapshots, update <user collection>) while later pushes commit and start their own updates, or all updates run freely back to back with random delays; monitors over the store and the command log: every -_-Snapshots document (duid, v) restored into a fresh datatype equals the replay of stored operations 1..v; every write to the user collection carries _orda_ver_ = v and (after the BSON round trip the server performs) the JSON view of replay(1..v); per key the written versions never decrease; snapshot.Manager.GetLatestDatatype() equals the full replay for every position of the latest snapshot (newer snapshot documents are removed step by step); " +
+		Rule: "seeded push histories of 2-3 clients on each of the four types over the real service; the background snapshot update of a chosen push is held at one of its database commands (find -_-Snapshots, find -_-Operations, insert -_-Snapshots, update <user collection>) while later pushes commit and start their own updates, or all updates run freely back to back with random delays, or the whole background goroutine of one push is held back and starts only after the update of a later push has completed (out-of-order updates); monitors over the store and the command log: every -_-Snapshots document (duid, v) restored into a fresh datatype equals the replay of stored operations 1..v; every write to the user collection carries _orda_ver_ = v and (after the BSON round trip the server performs) the JSON view of replay(1..v); per key the written versions never decrease; snapshot.Manager.GetLatestDatatype() equals the full replay for every position of the latest snapshot (newer snapshot documents are removed step by step); " +
 			"non-trivial = at least one snapshot update overlapped a later committed push (its held command was released after a later push had committed) or >= 3 updates ran back to back; distinct = hash of the step script",
 		Assumptions: []string{
 			"MongoDB is the in-memory stand-in; keys avoid NUL, '$' and '.' (MongoDB restrictions the stand-in does not model)",
@@ -32,6 +33,8 @@ func init() {
 		Run:     runC11,
 	})
 }
+
+func vhookPending() int64 { return vhook.Pending() }
 
 // plainBSON converts BSON values to plain JSON-able values.
 func plainBSON(v interface{}) interface{} {
@@ -127,7 +130,7 @@ func runC11(c *core.Case) *core.Result {
 		w.idle()
 		dts = append(dts, d)
 	}
-	mode := c.Index % 3 // 0,1: gate one update; 2: free-running back to back
+	mode := c.Index % 4 // 0,1: gate one update at a database command; 2: free-running back to back; 3: one update starts late (out of order)
 	gateAt := []string{"find -_-Snapshots", "find -_-Operations", "insert -_-Snapshots", "update colA"}[r.Intn(4)]
 	var gmu sync.Mutex
 	var gate chan struct{}
@@ -143,6 +146,9 @@ func runC11(c *core.Case) *core.Result {
 	w.b.DB.SetPlan(func(cmd *fakemongo.Cmd) fakemongo.Action {
 		gmu.Lock()
 		defer gmu.Unlock()
+		if mode == 3 {
+			return fakemongo.Action{}
+		}
 		if mode != 2 {
 			if currentPush == gatePush && cmd.Key() == "find -_-Snapshots" {
 				inUpdate = true // only the background snapshot update reads -_-Snapshots
@@ -164,6 +170,30 @@ func runC11(c *core.Case) *core.Result {
 		}
 		return fakemongo.Action{}
 	})
+	// mode 3: the background goroutine of push `gatePush` is held before it does anything and
+	// released only after the update of a later push has completed (out-of-order updates)
+	lateHold := make(chan struct{})
+	var lateOnce, lateRelease sync.Once
+	lateHeld := make(chan struct{}, 1)
+	if mode == 3 {
+		w.b.OnHook(func(point string, args ...interface{}) {
+			if point != "pp.post.start" {
+				return
+			}
+			gmu.Lock()
+			hold := currentPush == gatePush
+			gmu.Unlock()
+			if hold {
+				held := false
+				lateOnce.Do(func() { held = true })
+				if held {
+					lateHeld <- struct{}{}
+					<-lateHold
+				}
+			}
+		})
+	}
+	defer lateRelease.Do(func() { close(lateHold) })
 	released := false
 	release := func() {
 		gmu.Lock()
@@ -186,7 +216,41 @@ func runC11(c *core.Case) *core.Result {
 		if _, sig, msg := w.sync(w.cls[i]); sig != "" {
 			return verdict(c, "", sig, msg)
 		}
-		if mode != 2 {
+		if mode == 3 {
+			switch {
+			case p == gatePush:
+				select {
+				case <-lateHeld:
+				case <-time.After(3 * time.Second):
+					c.Count("late_goroutine_not_started", 1)
+				}
+			case p == gatePush+1:
+				// wait until this later push's own update is done, then let the old one start
+				for t := 0; t < 400; t++ {
+					if vhookPending() <= 1 && w.b.DB.OpenCommands() == 0 {
+						time.Sleep(2 * time.Millisecond)
+						if vhookPending() <= 1 && w.b.DB.OpenCommands() == 0 {
+							break
+						}
+					}
+					time.Sleep(5 * time.Millisecond)
+				}
+				overlap = true
+				c.Step("the background goroutine of push %d starts only now, after the update of push %d completed", gatePush, p)
+				lateRelease.Do(func() { close(lateHold) })
+				if !w.idle() {
+					return c.Inconclusive("idle")
+				}
+			case p != gatePush:
+				gmu.Lock()
+				gmu.Unlock()
+				if p < gatePush || p > gatePush+1 {
+					if !w.idle() {
+						return c.Inconclusive("idle")
+					}
+				}
+			}
+		} else if mode != 2 {
 			switch {
 			case p < gatePush:
 				if !w.idle() {
@@ -241,6 +305,7 @@ func runC11(c *core.Case) *core.Result {
 		}
 	}
 	release()
+	lateRelease.Do(func() { close(lateHold) })
 	if !w.b.Idle(30 * time.Second) {
 		return c.Inconclusive("background snapshot updates did not finish")
 	}
